@@ -89,6 +89,19 @@ pub fn dag_case(ctx: &mut Ctx, adj: &Vec<Vec<usize>>, roots: &Vec<usize>, origin
     if edges >= 2 && adj.len() <= 5 {
         ctx.report.sample(json!({"dag": case, "implementation": obs}));
     }
+    // the concrete in-degree / queue model (`Model/Kahn.lean`, proved to refine the abstract
+    // layering by `kahn_refines`) must reproduce the implementation's output exactly, order inside
+    // a group included; a difference is a correspondence failure, never by itself a violation
+    if resp["oracle"] == "ok" && !resp["kahn"].is_null() {
+        ctx.report.count("kahn_exact_compared");
+        if resp["kahn"] != obs {
+            ctx.report.count("disagreements");
+            if ctx.report.disagreements.len() < 5 {
+                ctx.report.disagreements.push(json!({"kind": "concrete get_groups model (Model/Kahn.lean) and implementation differ (order inside groups included)",
+                    "case": case, "implementation": obs, "model": resp["kahn"]}));
+            }
+        }
+    }
     record(ctx, case, &resp, &obs, "dag");
 }
 
